@@ -698,3 +698,110 @@ func TestC11PeersFailTogether(t *testing.T) {
 			rep.Floor("paths", 6, rep.Nontrivial)
 		})
 }
+
+// TestC11GracefulShutdown: the broker is stopped the orderly way (cmd/wasp calls Manager.DisconnectClients before it
+// leaves the cluster) with 1 to 6 sessions connected, with and without wills, subscriptions of their own, on one node or
+// next to a surviving node. Every one of the sessions must be ended: its connection closed, its registration, its record
+// and its subscriptions gone from every node; a session that was not connected to the stopping node is left alone.
+func TestC11GracefulShutdown(t *testing.T) {
+	type gp struct {
+		Nodes    int  `json:"nodes"`
+		Sessions int  `json:"sessions_on_the_stopping_node"`
+		Wills    bool `json:"with_wills"`
+	}
+	var paths []gp
+	for _, n := range []int{1, 2} {
+		for _, s := range []int{1, 2, 3, 6} {
+			for _, wl := range []bool{false, true} {
+				paths = append(paths, gp{n, s, wl})
+			}
+		}
+	}
+	RunPaths(t, "C11", "C11/graceful-shutdown", "TestC11GracefulShutdown", len(paths), vk.Pick(4*time.Minute, 10*time.Minute),
+		func(t *testing.T, i int, rep *vk.Report) {
+			p := paths[i]
+			RunBubble(t, fmt.Sprintf("p%d", i), func(t *testing.T) {
+				w := NewWorld(t, p.Nodes)
+				defer w.Close()
+				viol := func(sig, format string, a ...any) {
+					rep.Violate(vk.Violation{Sig: sig, Msg: fmt.Sprintf("%+v: ", p) + fmt.Sprintf(format, a...), Replay: p})
+				}
+				var stay *Client
+				if p.Nodes == 2 {
+					stay = w.NewClient("stays", 2, AckAll)
+					stay.Connect(ConnectOpts{ClientID: "stays", KeepAlive: 600})
+					stay.Subscribe(1, 0, "will/#")
+				}
+				var cs []*Client
+				for k := 0; k < p.Sessions; k++ {
+					c := w.NewClient(fmt.Sprintf("c%d", k), 1, AckAll)
+					o := ConnectOpts{ClientID: c.Name, KeepAlive: 600}
+					if p.Wills {
+						o.WillTopic, o.WillMsg = fmt.Sprintf("will/%d", k), fmt.Sprintf("gone-%d", k)
+					}
+					if c.Connect(o) != 0 {
+						rep.HarnessError("connect failed")
+						return
+					}
+					c.Subscribe(1, 1, fmt.Sprintf("own/%d/#", k))
+					cs = append(cs, c)
+					w.Step()
+				}
+				done := make(chan struct{})
+				go func() {
+					defer close(done)
+					w.Node(1).Manager.DisconnectClients(w.Node(1).ctx)
+				}()
+				w.Idle(5 * time.Second)
+				select {
+				case <-done:
+				default:
+					viol("c11-graceful-shutdown-does-not-return", "DisconnectClients had not returned after 5 s")
+					return
+				}
+				w.Idle(3 * time.Second)
+				for k, c := range cs {
+					if !c.BrokerClosed() {
+						viol("c11-session-survives-shutdown", "the broker was stopped with %d sessions connected; the connection of session %d (%s) is still open", p.Sessions, k, c.SessionID)
+						return
+					}
+					if w.Node(1).Local.Get(c.SessionID) != nil {
+						viol("c11-session-survives-shutdown:registration", "session %d (%s) is still registered on the stopping node", k, c.SessionID)
+						return
+					}
+				}
+				for _, n := range w.Nodes {
+					for _, s := range n.DState.SessionMetadatas().All() {
+						if s.Peer == 1 {
+							viol("c11-record-survives-shutdown", "node %d still lists session %s (client %s) of the stopped node", n.ID, s.SessionID, s.ClientID)
+							return
+						}
+					}
+					for _, s := range n.DState.Subscriptions().All() {
+						if s.Peer == 1 {
+							viol("c11-subscription-survives-shutdown", "node %d still lists subscription %s %s of the stopped node", n.ID, s.SessionID, s.Pattern)
+							return
+						}
+					}
+				}
+				if stay != nil {
+					if stay.BrokerClosed() || w.Node(2).Local.Get(stay.SessionID) == nil {
+						viol("c11-ended-without-cause:shutdown-of-another-node", "a session of node 2 was ended by the orderly stop of node 1")
+						return
+					}
+					// (how often a will is published when the BROKER stops is not among the causes C13 speaks of: the stop path tears a
+					// session down twice, once from DisconnectClients and once from its connection worker, and publishes the will
+					// both times; recorded in DESIGN.md as an observation outside the properties, not checked here)
+				}
+				Observe(w, rep)
+				MarkNontrivial(fmt.Sprint(p))
+				rep.Nontrivial++
+				rep.Sample(p)
+			})
+		},
+		func(i int) any { return paths[i] },
+		func(rep *vk.Report) {
+			rep.Rule = "Manager.DisconnectClients (the orderly stop of cmd/wasp) with 1 / 2 / 3 / 6 sessions connected, with and without wills, alone or next to a surviving node: it returns, every connection is closed, no registration, record or subscription of the stopped node is left on any node, the survivor's session is untouched"
+			rep.Floor("paths", int64(len(paths)), rep.Nontrivial)
+		})
+}
